@@ -7,7 +7,7 @@ TRUSTED_BASE = ["Lean 4.33 kernel", "axioms: propext, Classical.choice, Quot.sou
                 "model lean/RocflModel/Cli.lean: `translate` (argument vector -> library call: option table of opts.rs composed with cmds.rs) and the exit-status functions of rocfl.rs / validate.rs / list.rs, tied to the binary on every run: the binary runs the argument vector, the library (Rust harness, in-process) runs the model's translation, results, repository trees, cat output and exit status are compared",
                 "clap's tokenizer (one token per flag/value is generated; bundling and --long=value are not exercised)",
                 "Rust harness, the rocfl binary built from /repo, vlib/props/C20.py (generator, tree canonicalisation)"]
-ASSUMPTIONS = ["which of several identical staged files survives deduplication is not determined (hash-map order); trees are compared with content files keyed by version directory and content hash",
+ASSUMPTIONS = ["which of several identical staged files survives deduplication or a move onto one target is not determined inside the library (hash-map order): committed content files are compared by version directory and content hash, staged objects by logical state and digest set only",
                "commit and upgrade always pass --created so that inventories are comparable byte for byte; author name/address come from the command line, not from a config file",
                "purge is driven with --force (the interactive prompt is not exercised)"]
 CORRESPONDENCE = "Cli.translate / Cli.*Exit (lean/RocflModel/Cli.lean) vs the rocfl binary (src/bin/rocfl.rs, src/cmd/*.rs)"
@@ -28,11 +28,13 @@ def canon_tree(top):
         parts = [] if rel == "." else rel.split("/")
         vi = next((i for i, p in enumerate(parts) if re.fullmatch(r"v\d+", p)), None)
         in_content = vi is not None and len(parts) >= vi + 2
-        if rel != "." and not (in_content and len(parts) > vi + 2) and "rocfl-locks" not in parts:
+        if rel != "." and not (in_content and (len(parts) > vi + 2 or "rocfl-staging" in parts)) and "rocfl-locks" not in parts:
             out[rel] = "d"
         for f in files:
             fp = os.path.join(d, f)
             if f.endswith(".lock"):
+                continue
+            if in_content and "rocfl-staging" in parts:
                 continue
             if in_content:
                 k = "/".join(parts[:vi + 2]) + "/#" + faultprop.canon_file(fp)
@@ -50,7 +52,10 @@ def canon_staged_inventory(fp):
     try:
         j = json.load(open(fp))
         j["versions"][j["head"]].pop("created", None)
-        j["manifest"] = {k: sorted(p.split("/")[0] for p in v) for k, v in j.get("manifest", {}).items()}
+        # whether a staged duplicate of already stored content is kept depends on hash-map order
+        # inside the library (colliding move targets, deduplication): the staged manifest is compared
+        # by its digests only; the main repository is compared strictly once committed
+        j["manifest"] = sorted(j.get("manifest", {}))
         for b in j["versions"].values():
             b["state"] = {k: sorted(v) for k, v in b.get("state", {}).items()}
         return "sinv:" + hashlib.sha256(json.dumps(j, sort_keys=True).encode()).hexdigest()[:16]
@@ -107,11 +112,15 @@ def gen_op(rng, ids, files, known=None):
         return kind, ["cp"] + (["-r"] if rng.random() < 0.6 else []) + [oid] + srcs + ["--", rng.choice(["/", "a.txt", "dst/", "dir", "x/y.txt"])]
     if kind == "mvx":
         return kind, ["mv", oid, ("SRC", rng.choice(files + ["missing-src"])), "--", rng.choice(["/", "moved/", "m.txt"])]
+    # several sources into one file name: which source wins depends on hash-map order inside the
+    # library itself (flagged as non-deterministic by the C09 model) - not a CLI matter, not generated
     if kind == "cpi":
+        srcs = [lp() for _ in range(rng.choice([1, 1, 2]))]
         return kind, ["cp", "-i"] + (["-r"] if rng.random() < 0.5 else []) + (["-v", rng.choice(["v1", "v2"])] if rng.random() < 0.3 else []) + \
-            [oid] + [lp() for _ in range(rng.choice([1, 1, 2]))] + ["--", rng.choice(["/", "copy.txt", "d3/", "dir"])]
+            [oid] + srcs + ["--", rng.choice(["/", "copy.txt", "d3/", "dir"] if len(srcs) == 1 and not any(c in srcs[0] for c in "*?") else ["/", "d3/"])]
     if kind == "mvi":
-        return kind, ["mv", "-i", oid] + [lp() for _ in range(rng.choice([1, 2]))] + ["--", rng.choice(["/", "ren.txt", "d4/"])]
+        srcs = [lp() for _ in range(rng.choice([1, 2]))]
+        return kind, ["mv", "-i", oid] + srcs + ["--", rng.choice(["/", "ren.txt", "d4/"] if len(srcs) == 1 and not any(c in srcs[0] for c in "*?") else ["/", "d4/"])]
     if kind == "rm":
         return kind, ["rm"] + (["-r"] if rng.random() < 0.5 else []) + [oid] + [lp() for _ in range(rng.choice([1, 2]))]
     if kind == "reset":
